@@ -39,6 +39,16 @@ PARTIAL = {
     r"^core::time::Duration::(from_secs_f32|from_secs_f64|mul_f32|mul_f64)$": "vec_index",
     r"^<core::time::Duration as core::ops::arith::(Add|Sub|Mul)(<.*>)?>::(add|sub|mul)$": "vec_index",
     r"^core::cell::RefCell::<T>::(borrow|borrow_mut)$": "vec_index",
+    # panics for some arguments; never discharged (reported when reachable): listed so that they are not 'unclassified'
+    r"^core::num::<impl [iu](8|16|32|64|128|size)>::(clamp|rem_euclid|div_euclid|next_power_of_two|ilog2|ilog10|ilog|isqrt|div_ceil|next_multiple_of|strict_.*)$": "vec_index",
+    r"^core::cmp::Ord::clamp$": "vec_index", r"^core::f(32|64)::<impl f(32|64)>::clamp$": "vec_index",
+    r"^core::slice::<impl \[T\]>::(split_at_mut|swap|rotate_left|rotate_right|copy_within|chunks_exact_mut|rchunks_exact|array_windows|as_chunks_unchecked|select_nth_unstable_by|select_nth_unstable_by_key|split_off|first_chunk_unchecked)$": "vec_index",
+    r"^alloc::vec::Vec::<T, A>::(extend_from_within|splice|truncate_front|split_at_spare_mut)$": "vec_index",
+    r"^alloc::string::String::(insert|insert_str|remove|drain|replace_range|split_off|truncate)$": "vec_index",
+    r"^core::str::<impl str>::(split_at|split_at_mut)$": "vec_index",
+    r"^chrono::naive::date::NaiveDate::(from_ymd|and_hms|succ|pred|from_num_days_from_ce|from_yo|and_hms_milli)$": "vec_index",
+    r"^chrono::naive::time::NaiveTime::(from_hms|from_num_seconds_from_midnight|from_hms_milli)$": "vec_index",
+    r"^chrono::time_delta::TimeDelta::(weeks|nanoseconds_unused)$": "timedelta_ctor",
 }
 # total for every argument (may return Err/None; allocation failure aborts, it does not unwind)
 TOTAL = [
@@ -103,6 +113,49 @@ TOTAL = [
     r"^core::ops::arith::(Add|Sub|Mul)::(add|sub|mul)$", r"^<&usize as core::ops::arith::Add<usize>>::add$",
     r"^core::char::methods::<impl char>::.*$", r"^core::str::iter::.*$", r"^thiserror::.*$", r"^<.* as core::error::Error>::.*$",
     r"^core::array::<impl \[T; N\]>::(as_slice|as_mut_slice|iter|map|each_ref)$", r"^core::array::<impl .*>::(as_ref|as_mut|borrow|into_iter|try_from|eq|ne)$",
+    # ---- widened after the refactoring corpus (seeded/refactor): total std APIs a maintainer is likely to reach for
+    r"^core::option::Option::<.*>::(flatten|as_deref|as_deref_mut|inspect|take_if|insert|get_or_insert|unzip|is_some_or|as_slice|iter_mut|transpose|and_then|or|as_pin_ref)$",
+    r"^core::result::Result::<.*>::(inspect|inspect_err|iter_mut|and|or|transpose|copied|cloned|flatten|as_mut|as_deref|is_ok_and|is_err_and|unwrap_or_default)$",
+    r"^core::bool::<impl bool>::(then|then_some)$",
+    r"^core::iter::traits::iterator::Iterator::(try_for_each|try_fold|product|min_by|max_by|unzip|partition|reduce|scan|map_while|cycle|fuse|eq|ne|lt|le|cmp|is_sorted|rposition|try_find|copied|nth|advance_by|size_hint|collect_into|intersperse|array_chunks|filter_map|enumerate|last|step_by_unchecked)$",
+    r"^core::iter::traits::(exact_size::ExactSizeIterator::len|double_ended::DoubleEndedIterator::(nth_back|rfind|rfold|try_rfold))$",
+    r"^core::iter::(sources::(empty|once|repeat|repeat_n|from_fn|successors|once_with)::.*|adapters::.*|traits::collect::FromIterator::from_iter)$", r"^<.* as core::iter::traits::collect::FromIterator<.*>>::from_iter$",
+    r"^core::iter::(empty|once|repeat|repeat_n|from_fn|successors|zip)$",
+    r"^core::slice::<impl \[T\]>::(last_mut|first_mut|split_first_mut|split_last_mut|first_chunk_mut|split_at_mut_checked|iter|concat|join|to_vec|as_mut_ptr|is_sorted|is_sorted_by_key|rsplit|split|splitn|strip_prefix|strip_suffix|partition_point|binary_search_by|sort_unstable_by|select_nth_unstable|swap_with_slice|as_chunks|as_rchunks|split_last_chunk|get_disjoint_mut|trim_ascii|trim_ascii_start|trim_ascii_end|escape_ascii|is_ascii|eq_ignore_ascii_case|to_ascii_uppercase|to_ascii_lowercase|repeat|iter_mut|chunk_by|rsplitn|split_inclusive|as_array)$",
+    r"^alloc::slice::<impl \[T\]>::(sort_by_cached_key|to_vec_in|repeat)$", r"^alloc::slice::<impl alloc::borrow::ToOwned for \[T\]>::to_owned$",
+    r"^alloc::vec::Vec::<.*>::(extend_from_within_checked|dedup_by_key|dedup_by|retain_mut|resize|resize_with|leak|spare_capacity_mut|try_reserve|reserve_exact|shrink_to|first_mut|last_mut|iter_mut|splice_checked|pop_if|push_within_capacity|into_iter|from_iter|as_mut_ptr|is_full|extend_one)$",
+    r"^alloc::boxed::Box::<.*>::(new_uninit|new_zeroed|write|into_inner|leak|pin|from_raw|into_raw|as_ref|as_mut)$", r"^alloc::boxed::box_assume_init_into_vec_unsafe$", r"^alloc::boxed::(box_new_uninit|Box::<.*>::assume_init)$",
+    r"^alloc::str::<impl alloc::borrow::ToOwned for str>::to_owned$", r"^alloc::borrow::ToOwned::(to_owned|clone_into)$", r"^<.* as alloc::borrow::ToOwned>::to_owned$",
+    r"^core::str::converts::(from_utf8|from_utf8_mut)$", r"^core::str::<impl str>::(split_terminator|rsplitn|split_whitespace|split_ascii_whitespace|char_indices|matches|rmatches|match_indices|rfind|trim_matches|trim_start_matches|trim_end_matches|is_ascii|eq_ignore_ascii_case|to_ascii_uppercase|to_ascii_lowercase|encode_utf16|escape_debug|escape_default|split_inclusive|as_ptr|trim_ascii|bytes|chars|from_utf8|repeat|lines|into_string|into_boxed_str|make_ascii_uppercase|make_ascii_lowercase|get_mut|floor_char_boundary|ceil_char_boundary)$",
+    r"^alloc::string::String::(from_utf8_lossy_owned|insert_str_checked|pop|truncate_checked|retain|into_boxed_str|as_mut_str|capacity|reserve|shrink_to_fit|extend|from_utf16_lossy|chars|leak)$",
+    r"^core::num::<impl [iu](8|16|32|64|128|size)>::(is_negative|is_positive|signum|to_le_bytes|to_ne_bytes|from_ne_bytes|wrapping_neg|wrapping_shl|wrapping_shr|wrapping_abs|wrapping_div_checked|overflowing_mul|overflowing_neg|saturating_neg|saturating_abs|saturating_pow|saturating_sub_unsigned|saturating_add_signed|checked_neg|checked_abs|checked_pow|checked_rem|checked_shl|checked_shr|checked_add_signed|checked_sub_unsigned|checked_next_power_of_two|checked_ilog2|checked_ilog10|cast_signed|cast_unsigned|count_zeros|leading_ones|trailing_ones|reverse_bits|to_be|to_le|from_be|from_le|is_multiple_of|midpoint|checked_signed_diff|unbounded_shl|unbounded_shr|carrying_add|borrowing_sub|widening_mul|isqrt_checked|checked_isqrt)$",
+    r"^core::num::<impl u8>::(is_ascii|is_ascii_digit|is_ascii_alphabetic|is_ascii_alphanumeric|is_ascii_uppercase|is_ascii_lowercase|is_ascii_whitespace|is_ascii_punctuation|is_ascii_graphic|is_ascii_hexdigit|is_ascii_control|to_ascii_uppercase|to_ascii_lowercase|eq_ignore_ascii_case|as_ascii|escape_ascii)$",
+    r"^core::f(32|64)::<impl f(32|64)>::(is_infinite|is_sign_negative|is_sign_positive|is_normal|is_subnormal|recip|copysign|total_cmp|to_be_bytes|to_le_bytes|from_be_bytes|from_le_bytes|maximum|minimum|midpoint|mul_add|rem_euclid|div_euclid|trunc|fract|floor|ceil|round|sqrt|powi|abs_sub)$",
+    r"^std::f(32|64)::<impl f(32|64)>::(trunc|fract|round_ties_even|cbrt|hypot|exp2|log2|log|ln_1p|exp_m1|sinh|cosh|tanh|asin|acos|atan|sin_cos|rem_euclid|div_euclid|signum|copysign|abs_sub)$",
+    r"^core::convert::num::<impl core::convert::(From|TryFrom)<.*> for .*>::(from|try_from)$", r"^core::convert::num::.*$", r"^core::convert::(identity|Infallible)$",
+    r"^core::array::<impl \[T; N\]>::(each_mut|as_mut_slice|rsplit_array_ref|split_array_ref|try_map_checked|into_iter)$", r"^core::array::(from_fn|from_ref|iter::.*)$",
+    r"^core::ops::range::(Range|RangeInclusive|RangeFrom|RangeTo)::<Idx>::(is_empty|start|end|into_inner|contains)$", r"^core::ops::range::RangeBounds::(contains|start_bound|end_bound)$",
+    r"^core::ops::bit::(BitAnd|BitOr|BitXor|Not|Shl|Shr)::(bitand|bitor|bitxor|not)$", r"^<.* as core::ops::bit::(BitAnd|BitOr|BitXor|Not)(<.*>)?>::(bitand|bitor|bitxor|not)$",
+    r"^core::ops::control_flow::ControlFlow::<.*>::(is_break|is_continue|break_value|continue_value|map_break|map_continue)$",
+    r"^<core::ops::control_flow::ControlFlow<.*> as core::ops::try_trait::(Try|FromResidual<.*>)>::(branch|from_residual|from_output)$",
+    r"^chrono::naive::date::NaiveDate::(and_time|and_hms_opt|and_hms_milli_opt|and_hms_micro_opt|and_hms_nano_opt|from_yo_opt|from_isoywd_opt|succ_opt|pred_opt|checked_add_days|checked_sub_days|checked_add_months|checked_sub_months|signed_duration_since|num_days_from_ce|year|month|day|ordinal|weekday|from_epoch_days|to_epoch_days|iter_days)$",
+    r"^<chrono::naive::date::NaiveDate as chrono::traits::Datelike>::.*$", r"^<chrono::.* as chrono::traits::(Datelike|Timelike)>::.*$", r"^chrono::traits::(Datelike|Timelike)::.*$",
+    r"^chrono::naive::time::NaiveTime::(overflowing_add_signed|overflowing_sub_signed|signed_duration_since|from_hms_milli_opt|from_hms_micro_opt|from_hms_nano_opt|from_num_seconds_from_midnight_opt|num_seconds_from_midnight|format|hour|minute|second|nanosecond)$",
+    r"^chrono::naive::datetime::NaiveDateTime::(checked_add_signed|checked_sub_signed|date|time|and_local_timezone|signed_duration_since|format|timestamp|timestamp_millis|and_utc)$",
+    r"^chrono::datetime::DateTime::<.*>::(from_timestamp|from_timestamp_millis|from_timestamp_micros|from_timestamp_nanos|naive_utc|naive_local|date_naive|time|timezone|offset|to_utc|timestamp_micros|timestamp_nanos_opt|timestamp_subsec_millis|timestamp_subsec_micros|timestamp_subsec_nanos|to_rfc3339|to_rfc2822|checked_sub_signed|checked_add_months|checked_sub_months|checked_add_days|checked_sub_days|fixed_offset)$",
+    r"^chrono::time_delta::TimeDelta::(try_hours|try_weeks|new|num_hours|num_weeks|num_microseconds|num_nanoseconds|subsec_nanos|checked_add|checked_sub|checked_mul|checked_div|min_value|max_value|from_std|nanoseconds|microseconds)$",
+    r"^<chrono::.* as core::cmp::(PartialEq|PartialOrd|Ord)(<.*>)?>::.*$", r"^<chrono::.* as core::(clone::Clone|marker::Copy|fmt::(Debug|Display)|hash::Hash|default::Default)>::.*$",
+    r"^std::collections::hash::map::HashMap::<.*>::(entry|get_or_insert_with|get_key_value|retain|drain|clear|extend|into_keys|into_values|reserve|shrink_to_fit|try_insert|remove_entry|get_many_mut)$",
+    r"^std::collections::hash::map::(Entry|OccupiedEntry|VacantEntry)::<.*>::(or_insert_with_key|key|get|get_mut|into_mut|insert|insert_entry|remove|or_default|or_insert|or_insert_with|and_modify)$",
+    r"^<std::collections::hash::(map::HashMap|set::HashSet)<.*> as core::(iter::traits::collect::(Extend|FromIterator|IntoIterator)<.*>|default::Default)>::.*$",
+    r"^alloc::collections::(btree::map::BTreeMap|btree::set::BTreeSet)::<.*>::(new|insert|get|get_mut|contains_key|contains|remove|len|is_empty|iter|keys|values|entry|first_key_value|last_key_value|range|pop_first|pop_last|clear|extend|retain)$",
+    r"^alloc::collections::vec_deque::VecDeque::<.*>::(extend|iter_mut|front_mut|back_mut|get_mut|make_contiguous|as_slices|contains|retain|reserve|drain_checked|append|resize|rotate_left_checked)$",
+    r"^<alloc::collections::vec_deque::VecDeque<.*> as core::(iter::traits::collect::(Extend|FromIterator|IntoIterator)<.*>|default::Default|convert::From<.*>)>::.*$",
+    r"^core::mem::(forget|needs_drop|size_of_val|align_of_val|zeroed_checked|transmute_copy_checked|variant_count)$", r"^core::mem::maybe_uninit::MaybeUninit::<T>::(uninit|new|write|as_ptr|as_mut_ptr)$",
+    r"^core::cmp::(Reverse|Ordering::(is_eq|is_ne|is_lt|is_gt|is_le|is_ge|reverse|then|then_with))$", r"^core::cmp::Ordering::.*$", r"^core::cmp::(min_by|max_by|min_by_key|max_by_key)$",
+    r"^core::ops::function::(Fn|FnMut|FnOnce)::.*$", r"^<.* as core::ops::function::(Fn|FnMut|FnOnce)<.*>>::(call|call_mut|call_once)$",
+    r"^core::borrow::(Borrow|BorrowMut)::(borrow|borrow_mut)$", r"^<.* as core::borrow::(Borrow|BorrowMut)<.*>>::(borrow|borrow_mut)$",
+    r"^core::marker::.*$", r"^core::alloc::layout::Layout::(new|for_value|size|align)$",
     r"^core::intrinsics::(discriminant_value|size_of|cold_path|likely|unlikely)$", r"^core::ptr::.*$", r"^core::any::.*$",
 ]
 
